@@ -1,7 +1,8 @@
 package main
 
 // component "route" (C11): Executor.deliverMessage on a real executor built from harness-owned source and nodes.
-// input: "tree S <subs> <fail> <nroots> N <subs> <fail> <nchildren> ... ; msg <type> <key> <payloadhex> ; resub <index> <subs> ; ..."
+// input: "tree S <subs> <fail> <nroots> N <subs> <fail> <nchildren> ... ; msg <type> <key> <payloadhex> ; resub <index> <subs> ; restart ; ..."
+// restart = the source is re-created as after a failed Start (prepareSource): the fresh instance subscribes as configured
 
 import (
 	"fmt"
@@ -41,6 +42,7 @@ func genRoute(r *rng, n int, tier string, emit func(string)) {
 	for _, c := range []string{
 		"tree S a 0 1 N a 0 0 ; msg a k 01 ; msg b k 02",
 		"tree S - 0 2 N a 1 2 N a 0 0 N b 0 1 N a,b 0 0 N a 0 0 ; msg a k - ; msg b k2 ff ; msg zz k -",
+		"tree S a 0 1 N a 0 0 ; msg a k 01 ; restart ; msg a k 02 ; resub -1 b ; msg b k 03 ; restart ; msg b k 04 ; msg a k 05",
 		"tree S a,b 1 1 N a 1 1 N a 1 1 N a 0 0 ; msg a k 00 ; resub 2 - ; msg a k 00 ; resub -1 b ; msg a k 01 ; resub 0 a,b ; msg b k 03",
 	} {
 		emit(c)
@@ -74,7 +76,9 @@ func genRoute(r *rng, n int, tier string, emit func(string)) {
 		hd := "tree S " + genSubs(r) + " " + b01(r.chance(25)) + " " + strconv.Itoa(nroots) + " " + strings.Join(parts, " ")
 		ops := []string{hd}
 		for j := r.intn(8) + 1; j > 0; j-- {
-			if r.chance(25) {
+			if r.chance(8) {
+				ops = append(ops, "restart")
+			} else if r.chance(25) {
 				ops = append(ops, fmt.Sprintf("resub %d %s", r.intn(count+1)-1, genSubs(r)))
 			} else {
 				t := msgTypes[r.intn(len(msgTypes))]
@@ -154,6 +158,7 @@ func execRoute(input string) string {
 				s.receipts = nil
 			}
 			src.receipts = nil
+			src.receiptIncs = nil
 			errs := ex.VerifDeliverMessage(message.Message{MessageType: f[1], Key: f[2], Payload: unhx(f[3])})
 			var rec []string
 			fields := ""
@@ -170,7 +175,13 @@ func execRoute(input string) string {
 					}
 				}
 			}
-			note(src.receipts, -1)
+			for i, r := range src.receipts {
+				who := -1
+				if src.receiptIncs[i] != src.incarnation {
+					who = -2 // a source instance that has been replaced: nobody the message may go to
+				}
+				note([]string{r}, who)
+			}
 			for _, s := range specs {
 				note(s.receipts, s.idx)
 			}
@@ -205,6 +216,9 @@ func execRoute(input string) string {
 					n.NodeProcessor.(*vsync).Subscribe(subsList(f[2]))
 				}
 			}
+			outs = append(outs, ".")
+		case "restart":
+			ex.VerifPrepareSource()
 			outs = append(outs, ".")
 		default:
 			return "bad-input"
